@@ -1148,7 +1148,12 @@ func checkDetachedBlockRecordIsTheWalkedOne(c *Ctx, rule string) {
 				for _, o := range (&Slicer{P: p, ThroughRange: true, ThroughDeref: true}).Origins(v) {
 					switch x := o.(type) {
 					case *ssa.Parameter:
-						fromParam = true
+						// a part of the rollback is handed the list by its one caller
+						if r := p.resolveParam(x); r != ssa.Value(x) {
+							visit(r, depth+1)
+						} else {
+							fromParam = true
+						}
 					case *ssa.Call:
 						if bi, ok := x.Call.Value.(*ssa.Builtin); ok && bi.Name() == "append" {
 							for _, e := range appendedElems(x) {
